@@ -5,10 +5,10 @@ from lib import common as C, scen, clientrun
 THEOREMS = []
 
 SITES = ["shipped_root", "hop_old_keys", "hop_new_keys", "timestamp", "snapshot", "targets", "delegated_1",
-         "delegated_2"]
+         "delegated_2", "hop_same_key_list"]
 KINDS = ["valid", "valid_again", "corrupted", "other_content", "other_role_key", "unknown_key",
          "authorised_but_not_in_table", "claims_other_keyid"]
-REJECT = {"shipped_root": [2, 0], "hop_old_keys": [6, 0], "hop_new_keys": [6, 0], "timestamp": [6, 3],
+REJECT = {"shipped_root": [2, 0], "hop_old_keys": [6, 0], "hop_new_keys": [6, 0], "hop_same_key_list": [6, 0], "timestamp": [6, 3],
           "snapshot": [6, 1], "targets": [6, 2], "delegated_1": [6, 2], "delegated_2": [6, 2]}
 
 
@@ -92,6 +92,16 @@ def build(rng, site, auth, missing, thr, kinds, cs):
         r2roles["root"] = ([7], 1)
         r2 = s.root(version=2, roles=r2roles, cs=cs, keys=root_keys(r2roles), sigs=sigs + [[7, 7, 1]])
         roots = [(2, r2)]
+    elif site == "hop_same_key_list":
+        # the newer root lists the same root keys and lowers the threshold to 1: it must still meet the threshold
+        # of the root trusted so far
+        roles["root"] = (auth, thr)
+        r = s.root(roles=roles, cs=cs, keys=root_keys(roles),
+                   sigs=scen.valid([k for k in auth if k not in missing][:thr]) or scen.valid(auth[:1]))
+        r2roles = dict(base)
+        r2roles["root"] = (auth, 1)
+        r2 = s.root(version=2, roles=r2roles, cs=cs, keys=root_keys(r2roles), sigs=sigs)
+        roots = [(2, r2)]
     elif site == "hop_new_keys":
         r = s.root(roles=roles, cs=cs, keys=root_keys(roles))
         r2roles = dict(base)
@@ -118,7 +128,7 @@ def build(rng, site, auth, missing, thr, kinds, cs):
     s.cycle(r, files)
     # hop_old: shipped root itself must be valid, which needs thr present keys
     precondition = True
-    if site == "hop_old_keys" and len([k for k in auth if k not in missing]) < thr:
+    if site in ("hop_old_keys", "hop_same_key_list") and len([k for k in auth if k not in missing]) < thr:
         precondition = False
     return s, sigs, len(good) >= thr, precondition
 
